@@ -256,6 +256,62 @@ func comparisons(fd *ast.FuncDecl) []string {
 	return out
 }
 
+// loopAssigns lists the assignment statements inside the for / range loops of fd, in source order.
+func loopAssigns(fd *ast.FuncDecl) []string {
+	if fd == nil {
+		return nil
+	}
+	var out []string
+	ast.Inspect(fd.Body, func(n ast.Node) bool {
+		var body *ast.BlockStmt
+		switch x := n.(type) {
+		case *ast.ForStmt:
+			body = x.Body
+		case *ast.RangeStmt:
+			body = x.Body
+		}
+		if body != nil {
+			for _, st := range body.List {
+				if as, ok := st.(*ast.AssignStmt); ok {
+					out = append(out, exprStr(as))
+				}
+			}
+		}
+		return true
+	})
+	return out
+}
+
+// assignsIn lists every assignment statement of fd, in source order.
+func assignsIn(fd *ast.FuncDecl) []string {
+	if fd == nil {
+		return nil
+	}
+	var out []string
+	ast.Inspect(fd.Body, func(n ast.Node) bool {
+		if as, ok := n.(*ast.AssignStmt); ok {
+			out = append(out, exprStr(as))
+		}
+		return true
+	})
+	return out
+}
+
+// ifConds lists the conditions of every if statement of fd (nested ones included), in source order.
+func ifConds(fd *ast.FuncDecl) []string {
+	if fd == nil {
+		return nil
+	}
+	var out []string
+	ast.Inspect(fd.Body, func(n ast.Node) bool {
+		if is, ok := n.(*ast.IfStmt); ok {
+			out = append(out, exprStr(is.Cond))
+		}
+		return true
+	})
+	return out
+}
+
 // statement-level calls in fd body (top-level and nested), names only, for ordering facts
 func returnsIn(fd *ast.FuncDecl) []string {
 	if fd == nil {
@@ -268,6 +324,18 @@ func returnsIn(fd *ast.FuncDecl) []string {
 		}
 		return true
 	})
+	return out
+}
+
+// topStmts lists the top-level statements of fd's body, each printed on one line (whitespace-normalised).
+func topStmts(fd *ast.FuncDecl) []string {
+	if fd == nil {
+		return nil
+	}
+	var out []string
+	for _, st := range fd.Body.List {
+		out = append(out, exprStr(st))
+	}
 	return out
 }
 
@@ -468,6 +536,23 @@ func main() {
 	}
 	o.strs("valueBucketsLess", returnsIn(findFunc(tally, "ValueBuckets", "Less")), "ValueBuckets.Less")
 	o.strs("durationBucketsLess", returnsIn(findFunc(tally, "DurationBuckets", "Less")), "DurationBuckets.Less")
+	// C20: constructor loop bodies, Must variants, copy-before-sort, the equality re-check, the identity hash
+	for _, n := range []string{"LinearValueBuckets", "LinearDurationBuckets", "ExponentialValueBuckets", "ExponentialDurationBuckets"} {
+		o.strs("loop"+n, loopAssigns(findFunc(tally, "", n)), n+" loop body assignments")
+		o.strs("must"+n, append(guards(findFunc(tally, "", "MustMake"+n)), syncOps(findFunc(tally, "", "MustMake"+n), map[string]bool{n: true, "panic": true})...), "MustMake"+n+": guard and calls")
+	}
+	o.strs("copyAndSortValuesOps", syncOps(findFunc(tally, "", "copyAndSortValues"), map[string]bool{"make": true, "copy": true, "Sort": true}), "copyAndSortValues")
+	o.strs("copyAndSortDurationsOps", syncOps(findFunc(tally, "", "copyAndSortDurations"), map[string]bool{"make": true, "copy": true, "Sort": true}), "copyAndSortDurations")
+	o.strs("bucketPairsSortCalls", syncOps(findFunc(tally, "", "BucketPairs"), map[string]bool{"copyAndSortValues": true, "copyAndSortDurations": true, "Sort": true, "Swap": true}), "BucketPairs: every sorting call")
+	o.strs("bucketsEqualComparisons", comparisons(findFunc(tally, "", "bucketsEqual")), "comparisons in bucketsEqual")
+	o.strs("bucketsEqualReturns", returnsIn(findFunc(tally, "", "bucketsEqual")), "returns of bucketsEqual")
+	o.strs("bucketCacheGetConds", ifConds(findFunc(tally, "bucketCache", "Get")), "if conditions in (*bucketCache).Get")
+	o.strs("bucketCacheGetAssigns", assignsIn(findFunc(tally, "bucketCache", "Get")), "assignments in (*bucketCache).Get")
+	o.strs("getBucketsIdentityReturns", returnsIn(findFunc(tally, "", "getBucketsIdentity")), "getBucketsIdentity")
+	o.strs("identityAddUint64Returns", returnsIn(findFunc(ident, "Accumulator", "AddUint64")), "identity: Accumulator.AddUint64")
+	o.strs("identityNewAccumulatorReturns", returnsIn(findFunc(ident, "", "NewAccumulator")), "identity: NewAccumulator")
+	o.strs("identityDurationsShape", append(append(guards(findFunc(ident, "", "Durations")), loopAssigns(findFunc(ident, "", "Durations"))...), returnsIn(findFunc(ident, "", "Durations"))...), "identity.Durations: guard, loop body, returns")
+	o.strs("identityFloat64sShape", append(append(guards(findFunc(ident, "", "Float64s")), loopAssigns(findFunc(ident, "", "Float64s"))...), returnsIn(findFunc(ident, "", "Float64s"))...), "identity.Float64s: guard, loop body, returns")
 
 	// scope.go
 	if e := constValue(tally, "DefaultSeparator"); e != nil {
@@ -520,7 +605,6 @@ func main() {
 	o.strs("udpWriteComparisons", comparisons(findFunc(udp, "TUDPTransport", "Write")), "comparisons in TUDPTransport.Write")
 	o.strs("udpFlushOps", syncOps(findFunc(udp, "TUDPTransport", "Flush"), map[string]bool{"Write": true, "Reset": true, "IsOpen": true}), "TUDPTransport.Flush")
 
-
 	// multi (C19): complete bodies of the constructors and of every forwarding method
 	for _, m := range [][3]string{
 		{"multiNew", "", "NewMultiReporter"}, {"multiNewCached", "", "NewMultiCachedReporter"},
@@ -545,6 +629,11 @@ func main() {
 	}
 	// statsd
 	o.int("statsdDefaultPrecision", constValue(statsd, "DefaultHistogramBucketNamePrecision"), statsd, "statsd: DefaultHistogramBucketNamePrecision")
+	o.strs("statsdNewReporter", topStmts(findFunc(statsd, "", "NewReporter")), "statsd NewReporter: top-level statements")
+	for _, n := range []string{"ReportCounter", "ReportGauge", "ReportTimer", "ReportHistogramValueSamples", "ReportHistogramDurationSamples",
+		"valueBucketString", "durationBucketString", "Capabilities", "Reporting", "Tagging"} {
+		o.strs("statsd"+strings.ToUpper(n[:1])+n[1:], topStmts(findFunc(statsd, "cactusStatsReporter", n)), "statsd (*cactusStatsReporter)."+n+": top-level statements")
+	}
 
 	// instrument
 	o.strs("instrumentExecOps", syncOps(findFunc(instr, "call", "Exec"), map[string]bool{"Start": true, "Stop": true, "f": true}), "instrument (*call).Exec")
